@@ -215,7 +215,15 @@ def rule_shared_atomic(R):
     _r(R)
 
 
+def rule_shared_fit(R):
+    """"for all amounts of retained in-flight data and all buffer configurations": a CONNECT that exactly fills the free tail
+    behind the retained packets is encoded, not refused -- the serializer's bounds tests use the whole buffer (C09's rule)"""
+    from .c09 import rule_exact_fit as _r
+    _r(R)
+
+
 def run(R):
+    R.rule("fit", rule_shared_fit)
     R.rule("atomic", rule_shared_atomic)
     R.rule("negotiated", rule_negotiated)
     R.rule("tail", rule_tail)
